@@ -9,6 +9,7 @@ import (
 	"time"
 
 	"github.com/douban/gobeansdb/cmem"
+	"github.com/douban/gobeansdb/verifhook"
 )
 
 const (
@@ -74,6 +75,7 @@ func (ds *dataStore) AppendRecord(rec *Record) (pos Position, err error) {
 	currOffset := ds.chunks[ds.newHead].writingHead
 	if currOffset+size > uint32(Conf.DataFileMax) {
 		ds.newHead++
+		verifhook.Point("ds.rotate", ds.bucketID, ds.newHead)
 		logger.Infof("rotate to %d, size %d, new rec size %d", ds.newHead, currOffset, size)
 		currOffset = 0
 		go ds.flush(ds.newHead-1, true)
@@ -97,6 +99,7 @@ func (ds *dataStore) AppendRecord(rec *Record) (pos Position, err error) {
 }
 
 func (ds *dataStore) flush(chunk int, force bool) error {
+	verifhook.Point("ds.flush.enter", ds.bucketID, chunk, force)
 	if ds.wbufSize == 0 {
 		return nil
 	}
@@ -131,10 +134,12 @@ func (ds *dataStore) flush(chunk int, force bool) error {
 		logger.Fatalf("wrong data file size, exp %d, got %d, %s, dataChunk %#v",
 			filessize, w.offset, ds.genPath(chunk), &ds.chunks[chunk])
 	}
+	verifhook.Point("ds.flush.write.before", ds.genPath(chunk), filessize)
 	nflushed, err := ds.chunks[chunk].flush(w, false)
 	ds.Lock()
 	ds.wbufSize -= nflushed
 	ds.Unlock()
+	verifhook.Point("ds.flush.write.after", ds.genPath(chunk), nflushed)
 	w.Close()
 
 	return nil
@@ -200,6 +205,7 @@ func GetStreamWriter(path string, isappend bool) (*DataStreamWriter, error) {
 		}
 	} else {
 		logger.Infof("create data file: %s", path)
+		verifhook.Point("fs.create", path)
 		fd, err = os.Create(path)
 		if err != nil {
 			logger.Fatalf(err.Error())
